@@ -756,4 +756,188 @@ theorem reachable_returned_quiescent (cfg : Cfg) (hfix : cfg.fixed = true) :
   intro s hr
   exact (key s hr).2
 
+/-! ### calls invoked after the closed mark -/
+
+def BornOk (x : Call) : Prop :=
+  x.bornClosed = true → (x.phase = .invoked ∨ x.phase = .left .closedPipe ∨ x.phase = .returned .closedPipe)
+
+structure BornInv (s : State) : Prop where
+  closed : ∀ x ∈ s.calls, x.bornClosed = true → s.closed = true
+  phase : ∀ x ∈ s.calls, BornOk x
+
+theorem closed_mono (cfg : Cfg) (s s' : State) (e : Event) (hs : step cfg s e = some s') (hc : s.closed = true) :
+    s'.closed = true := by
+  rcases step_close_flags cfg s s' e hs with ⟨_, b⟩ | ⟨_, _, b⟩ | ⟨_, b⟩ | ⟨_, _, b⟩
+  · rw [b]; exact hc
+  · rw [b]; exact hc
+  · exact b
+  · rw [b]; exact hc
+
+theorem born_updCalls (s : State) (c : Nat) (q : Call → Bool) (f : Call → Call)
+    (hf : ∀ x, q x = true → (f x).bornClosed = x.bornClosed ∧ (BornOk x → s.closed = true ∨ x.bornClosed = false → BornOk (f x)))
+    (hi : BornInv s) : ∀ y ∈ (updCalls s c q f).calls, BornOk y ∧ (y.bornClosed = true → s.closed = true) := by
+  intro y hy
+  simp only [updCalls, List.mem_map] at hy
+  obtain ⟨x, hx, rfl⟩ := hy
+  by_cases hq : (decide (x.id = c) && q x) = true
+  · simp only [hq, if_true]
+    simp only [Bool.and_eq_true] at hq
+    obtain ⟨hb, hok⟩ := hf x hq.2
+    refine ⟨?_, fun h => hi.closed x hx (by rw [← hb]; exact h)⟩
+    apply hok (hi.phase x hx)
+    cases hbc : x.bornClosed with
+    | false => exact Or.inr rfl
+    | true => exact Or.inl (hi.closed x hx hbc)
+  · simp only [hq]
+    exact ⟨hi.phase x hx, hi.closed x hx⟩
+
+theorem bornOk_not_active (x : Call) (h : BornOk x) (hp : x.phase = .entered ∨ x.phase = .waiting) : x.bornClosed = false := by
+  cases hb : x.bornClosed with
+  | false => rfl
+  | true =>
+    rcases h hb with h1 | h1 | h1 <;> rcases hp with h2 | h2 <;> rw [h1] at h2 <;> cases h2
+
+theorem born_init : BornInv State.init := ⟨by simp [State.init], by simp [State.init]⟩
+
+/-- calls unchanged, closed flag only grows -/
+theorem born_same_calls (s s' : State) (hc : s'.calls = s.calls) (hm : s.closed = true → s'.closed = true)
+    (hi : BornInv s) : BornInv s' :=
+  ⟨fun x hx hb => hm (hi.closed x (hc ▸ hx) hb), fun x hx => hi.phase x (hc ▸ hx)⟩
+
+theorem born_of_upd (s : State) (c : Nat) (q : Call → Bool) (f : Call → Call)
+    (hf : ∀ x, q x = true → (f x).bornClosed = x.bornClosed ∧ (BornOk x → s.closed = true ∨ x.bornClosed = false → BornOk (f x)))
+    (hi : BornInv s) : BornInv (updCalls s c q f) :=
+  ⟨fun y hy hb => (born_updCalls s c q f hf hi y hy).2 hb, fun y hy => (born_updCalls s c q f hf hi y hy).1⟩
+
+theorem born_step (cfg : Cfg) (s s' : State) (e : Event) (hi : BornInv s) (h : step cfg s e = some s') : BornInv s' := by
+  have keepPhase : ∀ (x : Call) (y : Call), y.bornClosed = x.bornClosed → y.phase = x.phase →
+      (y.bornClosed = x.bornClosed ∧ (BornOk x → s.closed = true ∨ x.bornClosed = false → BornOk y)) := by
+    intro x y hb hp
+    refine ⟨hb, fun hok _ => ?_⟩
+    intro hby; rw [hp]; exact hok (hb ▸ hby)
+  have activeCase : ∀ (x y : Call), (x.phase = .entered ∨ x.phase = .waiting) → y.bornClosed = x.bornClosed →
+      (y.bornClosed = x.bornClosed ∧ (BornOk x → s.closed = true ∨ x.bornClosed = false → BornOk y)) := by
+    intro x y hp hb
+    refine ⟨hb, fun hok _ hby => ?_⟩
+    have := bornOk_not_active x hok hp
+    rw [hb, this] at hby; cases hby
+  cases e with
+  | callBegin c ms mf =>
+    simp only [step] at h
+    split at h
+    · simp at h
+    · injection h with h; subst h
+      constructor
+      · intro x hx hb
+        rcases List.mem_append.mp hx with hx | hx
+        · exact hi.closed x hx hb
+        · simp only [List.mem_singleton] at hx; subst hx; exact hb
+      · intro x hx
+        rcases List.mem_append.mp hx with hx | hx
+        · exact hi.phase x hx
+        · simp only [List.mem_singleton] at hx; subst hx; intro _; exact Or.inl rfl
+  | ctxCancel c =>
+    simp only [step, Option.ite_none_right_eq_some, Option.some.injEq] at h
+    obtain ⟨_, rfl⟩ := h
+    exact born_of_upd s c _ _ (fun x _ => keepPhase x _ rfl rfl) hi
+  | metaReq c =>
+    simp only [step, Option.ite_none_right_eq_some, Option.some.injEq] at h
+    obtain ⟨_, rfl⟩ := h
+    exact born_of_upd s c _ _ (fun x _ => keepPhase x _ rfl rfl) hi
+  | metaRel c =>
+    simp only [step, Option.ite_none_right_eq_some, Option.some.injEq] at h
+    obtain ⟨_, rfl⟩ := h
+    exact born_of_upd s c _ _ (fun x _ => keepPhase x _ rfl rfl) hi
+  | enter c =>
+    simp only [step, Option.ite_none_right_eq_some, Option.some.injEq] at h
+    obtain ⟨_, rfl⟩ := h
+    apply born_of_upd s c _ _ _ hi
+    intro x _
+    refine ⟨rfl, fun _ hor hby => ?_⟩
+    rcases hor with hcl | hnb
+    · simp [hcl]
+    · simp only at hby; rw [hnb] at hby; cases hby
+  | early c r =>
+    simp only [step, Option.ite_none_right_eq_some, Option.some.injEq] at h
+    obtain ⟨_, rfl⟩ := h
+    apply born_of_upd s c _ _ _ hi
+    intro x hq
+    simp only [decide_eq_true_eq] at hq
+    exact activeCase x _ (Or.inl hq) rfl
+  | leave c r =>
+    simp only [step, Option.ite_none_right_eq_some, Option.some.injEq] at h
+    obtain ⟨_, rfl⟩ := h
+    apply born_of_upd s c _ _ _ hi
+    intro x hq
+    simp only [decide_eq_true_eq] at hq
+    exact activeCase x _ (Or.inr hq) rfl
+  | ret c =>
+    simp only [step, Option.ite_none_right_eq_some, Option.some.injEq] at h
+    obtain ⟨_, rfl⟩ := h
+    apply born_of_upd s c _ _ _ hi
+    intro x _
+    simp only [Call.doReturn]
+    cases hp : x.phase with
+    | left r =>
+      refine ⟨rfl, fun hok _ hby => ?_⟩
+      rcases hok hby with h1 | h1 | h1 <;> rw [hp] at h1 <;> simp at h1
+      subst h1; exact Or.inr (Or.inr rfl)
+    | _ => exact keepPhase x _ rfl rfl
+  | batch c =>
+    simp only [step] at h
+    split at h
+    · simp at h
+    · rename_i x hfind
+      have hxp := List.find?_some hfind
+      simp only [Bool.and_eq_true, decide_eq_true_eq] at hxp
+      split at h
+      · injection h with h; subst h
+        apply born_of_upd s c _ _ _ hi
+        intro y hq
+        simp only [decide_eq_true_eq] at hq
+        exact activeCase y _ (Or.inl hq) rfl
+      · injection h with h; subst h
+        have hfl := foldl_addOne_flags cfg x.msgs s
+        have hi1 : BornInv (x.msgs.foldl (addOne cfg) s) :=
+          born_same_calls s _ hfl.2.2.1 (fun hc => by rw [hfl.1]; exact hc) hi
+        apply born_of_upd _ c _ _ _ hi1
+        intro y hq
+        simp only [beq_iff_eq] at hq
+        subst hq
+        exact ⟨rfl, fun hok _ hby => by
+          have := bornOk_not_active y hok (Or.inl hxp.1.1.2)
+          simp only at hby; rw [this] at hby; cases hby⟩
+  | closeBegin =>
+    simp only [step, Option.ite_none_right_eq_some, Option.some.injEq] at h
+    obtain ⟨_, rfl⟩ := h; exact born_same_calls s _ rfl (fun hc => hc) hi
+  | closeMark =>
+    simp only [step, Option.ite_none_right_eq_some, Option.some.injEq] at h
+    obtain ⟨_, rfl⟩ := h; exact born_same_calls s _ rfl (fun _ => rfl) hi
+  | closeReturn =>
+    simp only [step, Option.ite_none_right_eq_some, Option.some.injEq] at h
+    obtain ⟨_, rfl⟩ := h; exact born_same_calls s _ rfl (fun hc => hc) hi
+  | timer b =>
+    simp only [step, Option.ite_none_right_eq_some, Option.some.injEq] at h
+    obtain ⟨_, rfl⟩ := h; exact born_same_calls s _ rfl (fun hc => hc) hi
+  | get i =>
+    simp only [step] at h
+    split at h
+    · injection h with h; subst h; exact born_same_calls s _ rfl (fun hc => hc) hi
+    · split at h
+      · injection h with h; subst h; exact born_same_calls s _ rfl (fun hc => hc) hi
+      · simp at h
+  | attempt i o =>
+    simp only [step, Option.ite_none_right_eq_some, Option.some.injEq] at h
+    obtain ⟨_, rfl⟩ := h; exact born_same_calls s _ rfl (fun hc => hc) hi
+  | complete i =>
+    simp only [step] at h
+    split at h
+    · split at h
+      · injection h with h; subst h; exact born_same_calls s _ rfl (fun hc => hc) hi
+      · simp at h
+    · simp at h
+
+theorem reachable_born (cfg : Cfg) : ∀ s, Reachable cfg s → BornInv s :=
+  reachable_induction cfg BornInv born_init (fun s e s' hi hs => born_step cfg s s' e hi hs)
+
 end KV.WriterClose
